@@ -45,6 +45,12 @@ def gen_case(rng: random.Random, big: bool = False) -> dict:
         tid = rng.choice([f"n{i}", f"e{i}|rel|x", f"N{i}", f"é{i}", f"n{i} "]) if rng.random() < 0.8 else f"t{rng.randint(0, 3)}"
         attr = rng.choice(["weight", "weight", "weight", "bias"])
         targets.append((kind, tid, attr))
+    if rng.random() < 0.3:
+        # ids that are prefixes of one another, continued by characters that sort below and above ':' (the
+        # canonical key joins kind:id:attr, so "n1" vs "n10" orders differently as a string than as a tuple)
+        pool = ["n1", "n10", "n1a", "n1+", "n1 ", "n", "n1.", "n1z", "n100", "n1/x"]
+        kind = rng.choice(["node", "edge"])
+        targets = [(kind, t, "weight") for t in rng.sample(pool, rng.randint(2, min(8, len(pool))))]
     nops = rng.randint(0, 5)
     ops = [rng.choice(KINDS) for _ in range(nops)]
     nd = rng.randint(0, 40 if big else 9)
